@@ -11,7 +11,7 @@ and Irrelevant), only Fail is skipped; (MONOTONE) max_level is used only as the
 bound of that comparison (so raising n never rejects).
 Declines: that n hops of data suffice for evaluation.
 """
-from lib import traverse, shape, cfg, protocol, hom
+from lib import traverse, shape, cfg, protocol, hom, panics
 from lib.facts import callee
 from lib.rulelib import get_fn, short
 
@@ -146,6 +146,163 @@ def envs(chk, facts):
                where=f.where(), fn=f.name, sample={"outcome": vn, "level_checked": checked})
 
 
+def envs_every_iteration(chk, facts):
+    """No request environment is dropped before its PolicyCheck outcome is looked at: in the loop over
+    typecheck_by_request_env's results, the only way past check_expr_level is the Fail arm."""
+    rule = "C16.ENVS"
+    f = facts.fn("cedar_policy_core::validator::level_validate::<impl cedar_policy_core::validator::Validator>::validate_policy_with_level")
+    if f is None:
+        return
+    sws = sorted(shape.variant_switches(f, "typecheck::PolicyCheck"), key=lambda s: -len(s[2]))
+    r = facts.adts.get("cedar_policy_core::validator::typecheck::PolicyCheck")
+    calls = [bb for bb, t in f.calls() if callee(t) == LC + "check_expr_level"]
+    if not sws or not calls or r is None:
+        chk.lost(rule, "loop over request environments")
+        return
+    b, scrut, arms, other = sws[0]
+    fail_edges = {(b, tgt) for vi, tgt in arms.items() if r["variants"][vi]["name"] == "Fail"}
+    lp = protocol.loop_of(f, calls[0])
+    if lp is None:
+        chk.ob(rule, "per-environment", False, "check_expr_level is not called inside the loop over request environments", where=f.where(), fn=f.name)
+        return
+    head, some = lp
+    reach = cfg.reachable(f, some, cut_blocks=set(calls), cut_edges=fail_edges)
+    skipped = head in reach
+    # name the guard that lets an iteration through
+    why = ""
+    if skipped:
+        gs = [panics.cond_desc(f, d) for d, taken in cfg.guard_edges(f, b) if cfg.dominates(f, some, d)]
+        why = " (the outcome is only looked at under %s)" % gs if gs else ""
+    chk.ob(rule, "per-environment", not skipped,
+           "every iteration over the request environments reaches check_expr_level unless its outcome is Fail: %s%s" % (not skipped, why),
+           where=f.where(), fn=f.name, key="%s:per-environment" % rule)
+    # the iterated collection is what typecheck_by_request_env returned (all environments of the schema)
+    L = shape.Labels(f, None, None, call_labels=lambda c, t: ["ENVS"] if c.endswith("::typecheck_by_request_env") else None)
+    hb = f.blocks[head]["t"]
+    src = L.operand_labels(hb[2][0]) if hb[0] == "call" and hb[2] else set()
+    chk.ob(rule, "all-environments", "ENVS" in src, "the loop iterates the result of typecheck_by_request_env: %s" % ("ENVS" in src), where=f.where(), fn=f.name)
+
+
+TRANSPARENT = ("::as_ref", "::deref", "::borrow", "::as_deref", "Clone>::clone", "::cloned", "::copied")
+
+
+def leaf_producers(f, operand, depth=12):
+    """Backward slice of an operand through copies, references, Some(..)/tuple aggregates and transparent calls:
+    the set of places / calls the value is made of."""
+    defs = panics._def_sites(f)
+    out = set()
+    seen = set()
+    work = [operand]
+    while work:
+        o = work.pop()
+        if o[0] == "k":
+            out.add("const")
+            continue
+        p = o[1]
+        l = p[0]
+        proj = [e for e in p[1:] if e != "*"]
+        if proj:
+            names = []
+            for e in proj:
+                if isinstance(e, list) and e[0] == "d":
+                    names.append(str(e[1]))
+                elif isinstance(e, list) and e[0] == "f":
+                    names.append(str(e[2] or e[1]))
+            out.add("place:" + ".".join(names))
+            continue      # a pattern binding / field read: the value is that part of the scrutinee
+        if (l, len(proj)) in seen:
+            continue
+        seen.add((l, len(proj)))
+        if 1 <= l <= f.nargs:
+            out.add("param:%d" % l)
+            continue
+        ds = defs.get(l, [])
+        if not ds:
+            continue
+        for kind, b, x in ds:
+            if kind == "call":
+                c = callee(x)
+                if c.endswith(TRANSPARENT) and x[2]:
+                    work.append(x[2][0])
+                else:
+                    out.add("call:" + c)
+                continue
+            rv = x[2]
+            if rv[0] == "use":
+                work.append(rv[1])
+            elif rv[0] == "cast":
+                work.append(rv[2])
+            elif rv[0] in ("ref", "addr"):
+                work.append(["c", rv[1]])
+            elif rv[0] == "agg":
+                for o2 in rv[2]:
+                    work.append(o2)
+            else:
+                out.add(rv[0])
+    return out
+
+
+def literal_exemption(chk, facts):
+    """An entity literal in dereference position is an error unless it IS the request environment's action:
+    the exempting comparison relates the whole literal uid with RequestEnv::action_entity_uid(), not a projection of either."""
+    rule = "C16.GUARD.literal"
+    g = get_fn(chk, facts, rule, LC + "check_entity_deref_target_level")
+    if g is None:
+        return
+    ev = hom.arm_events(facts, g, "ast::expr::ExprKind", lambda c, t: ("cmp" if c.split("::")[-1] in ("ne", "eq") else ("ins" if c.endswith("HashSet::<T, S, A>::insert") else None)))
+    r = facts.adts.get(EXPRKIND)
+    if ev is None or r is None:
+        chk.lost(rule, "match on ExprKind in check_entity_deref_target_level")
+        return
+    n = 0
+    for vi, arm in sorted(ev["arms"].items()):
+        vn = r["variants"][vi]["name"]
+        if vn not in ("Lit", "Slot"):
+            continue
+        ins = [e for e in arm["events"] if e["ctor"] == "ins"]
+        cmps = [e for e in arm["events"] if e["ctor"] == "cmp"]
+        if vn == "Slot":
+            # a slot in dereference position is always an error
+            ok = bool(ins) and all(not [d for d, _ in cfg.guard_edges(g, e["block"]) if d in arm["region"]] for e in ins)
+            n += 1
+            chk.ob(rule, "Slot", ok, "a slot in dereference position is reported unconditionally: %s" % ok, where=g.where(ins[0]["line"] if ins else None), fn=g.name)
+            continue
+        probs = []
+        if not ins:
+            probs.append("no literal_dereference_target error is reported in the Lit arm")
+        for e in ins:
+            guards = [d for d, _ in cfg.guard_edges(g, e["block"]) if d in arm["region"]]
+            if not guards:
+                continue        # unconditional report: stricter than required, sound
+            for d in guards:
+                # the guard must be decided by a comparison of (literal uid) with (env.action_entity_uid())
+                cb = [c for c in cmps if any(sb == d for sb, m in protocol.bool_edges(g, c["block"]))]
+                if not cb:
+                    sub = shape.variant_switches(g, "ast::literal::Literal")
+                    if any(x[0] == d for x in sub):
+                        continue     # the `Literal::EntityUID` sub-pattern
+                    probs.append("the report is skipped under `%s`, which is not a comparison with the request's action" % panics.cond_desc(g, d))
+                    continue
+                t = g.blocks[cb[0]["block"]]["t"]
+                a, b2 = leaf_producers(g, t[2][0]), leaf_producers(g, t[2][1])
+                sides = [a, b2]
+                act = [x for x in sides if any(y.endswith("RequestEnv::action_entity_uid") for y in x)]
+                lit = [x for x in sides if x is not (act[0] if act else None)]
+                if len(act) != 1:
+                    probs.append("neither side of the exempting comparison is RequestEnv::action_entity_uid() alone (sides: %s / %s)" % (sorted(a), sorted(b2)))
+                    continue
+                extra_act = [y for y in act[0] if y.startswith("call:") and not y.endswith("RequestEnv::action_entity_uid")]
+                extra_lit = [y for y in lit[0] if y.startswith("call:")]
+                if extra_act or extra_lit:
+                    probs.append("the exempting comparison relates projections (%s), not the literal uid and the request's action uid themselves" % ", ".join(short(x[5:]) for x in extra_act + extra_lit))
+                if not any(y.startswith("place:") for y in lit[0]):
+                    probs.append("the compared value is not the literal of this arm")
+        n += 1
+        chk.ob(rule, "Lit", not probs, "entity literal in dereference position: %s" % ("; ".join(probs) if probs else "reported unless the literal uid equals RequestEnv::action_entity_uid()"),
+               where=g.where(ins[0]["line"] if ins else None), fn=g.name, key="%s:Lit:%s" % (rule, ";".join(sorted(p.split(" (")[0] for p in probs))))
+    chk.floor(rule, "literal / slot arms", n, 2)
+
+
 def monotone(chk, facts):
     """max_level is read only to be compared (and to be reported): raising it can only turn errors off."""
     rule = "C16.MONOTONE"
@@ -187,4 +344,6 @@ def run(chk, facts, tier):
     level_guard(chk, facts)
     counting(chk, facts)
     envs(chk, facts)
+    envs_every_iteration(chk, facts)
+    literal_exemption(chk, facts)
     monotone(chk, facts)
